@@ -82,6 +82,12 @@ CHECKS = {
                      'outermost error node next-token line carries an issue, non-empty when strict parsing fails.',
                 note='TLC; recorder. One systematic exception is a known finding (f-string error nodes, versions >= 3.9).',
                 ref='2.5, 3 C13'),
+    'C19': dict(level=MC, tech='TLA+ A-spec Tree (C19 clauses: table equality after round trips, Splice) evaluated by TLC on recorded round trips and refactor results',
+                text='For every tree of the standard text set: the tree after pickle.loads(dumps) and after eval(dump(indent)) is '
+                     're-serialised and compared by TLC field by field (class, type, token type, value, prefix, positions, '
+                     'parent, children, code); dump() of all six indent styles evaluates to trees with identical dumps; '
+                     'Grammar.refactor with the empty map and with random maps of <= 3 disjoint nodes equals the splice of the '
+                     'input computed by the spec from the nodes\' spans.', note='TLC; recorder.', ref='2.4, 3 C19'),
     'C20': dict(level=MC, tech='TLA+ A-spec Issues (kind pep8) evaluated by TLC on recorded _get_normalizer_issues() results, four configurations, three provenances',
                 text='PEP 8 issue lists of real trees (standard set + ParserB behaviours) under four configurations, called '
                      'twice, and for the same text parsed fresh / re-parsed incrementally / unpickled; TLC checks: no exception, '
